@@ -202,3 +202,55 @@ Proof.
   destruct K as [K _]. cbn in K. apply crun_iff in K. split; [apply K|].
   unfold raw_read. rewrite Hs. destruct (r_stk r'); reflexivity.
 Qed.
+
+(* ---------------------------------------------------------------- inside the emulator core *)
+From OV Require Import Proofs.EmuCoreProofs.
+
+(* a table-driven event on channel k of thread who is exactly raw_apply on that channel *)
+Lemma chan_step_spec sx st who k a v :
+  (who < length (threads st))%nat -> (k < length (s_chans sx))%nat ->
+  (k < length (t_raw (nth who (threads st) dummy_thread)))%nat ->
+  match chan_step sx st who k a v with
+  | Ok (st', d) => exists b, raw_apply (spec_of sx k) (raw_of st who k) a v = Ok (raw_of st' who k, b) /\
+                             d = (if b then Some (who, k) else None)
+  | Err e => raw_apply (spec_of sx k) (raw_of st who k) a v = Err e
+  end.
+Proof.
+  intros Hw Hk Hl. unfold chan_step, nth_opt.
+  destruct (nth_error (threads st) who) as [th|] eqn:Hn; [|apply nth_error_None in Hn; lia].
+  destruct (nth_error (s_chans sx) k) as [sp|] eqn:Hs; [|apply nth_error_None in Hs; lia].
+  assert (Esp : spec_of sx k = sp) by (unfold spec_of; apply nth_error_nth; exact Hs).
+  assert (Eth : nth who (threads st) dummy_thread = th) by (apply nth_error_nth; exact Hn).
+  assert (Eraw : raw_of st who k = nth k (t_raw th) empty_raw) by (unfold raw_of; rewrite Eth; reflexivity).
+  rewrite Eth in Hl. rewrite Esp, Eraw.
+  destruct (raw_apply sp (nth k (t_raw th) empty_raw) a v) as [[r' d]|e] eqn:Ea; [|reflexivity].
+  exists d. split; [|reflexivity].
+  unfold raw_of, set_thread. cbn [threads]. rewrite nth_update_same by exact Hw. cbn [t_raw with_raw].
+  rewrite nth_update_same by exact Hl. reflexivity.
+Qed.
+
+(* the state requirement of the model is checked before the channel is touched *)
+Lemma need_refused sx st who th k a v need :
+  nth_error (threads st) who = Some th ->
+  ((need = 1 /\ is_running (t_state th) = false) \/
+   (need = 2 /\ is_active (t_state th) = false) \/
+   (need = 4 /\ (is_active (t_state th) = false \/ t_ooc th = true))) ->
+  exists e, core_step sx st who (EvChan k a v need) = Err e.
+Proof.
+  intros Hn H. unfold core_step, nth_opt. rewrite Hn.
+  destruct H as [[-> Hr] | [[-> Ha] | [-> Ho]]].
+  - rewrite Hr. cbn. eexists. reflexivity.
+  - cbn [Z.eqb andb negb]. rewrite Ha. cbn. eexists. reflexivity.
+  - cbn [Z.eqb andb negb]. destruct Ho as [Ha|Ho].
+    + rewrite Ha. cbn. eexists. reflexivity.
+    + rewrite Ho. rewrite orb_true_r. eexists. reflexivity.
+Qed.
+
+(* lint mode: a trace that ends with an open region on a linted channel is rejected *)
+Lemma lint_rejects sx lintchans evs st tl :
+  run_from sx (init sx) evs = Ok (st, tl) -> s_lint sx = true -> lint_ok sx lintchans st = false ->
+  exists e, run sx lintchans evs = Err e.
+Proof.
+  intros H Hl Ho. unfold run. rewrite H. destruct (negb (all_dead st)); [eexists; reflexivity|].
+  rewrite Hl, Ho. cbn. eexists. reflexivity.
+Qed.
